@@ -7066,6 +7066,7 @@ func ruleIMP4(c *Ctx) []Ob {
 	sort.Slice(fns, func(i, j int) bool { return c.fname(fns[i]) < c.fname(fns[j]) })
 	decodes := false
 	checked := ""
+	piecewise := ""
 	for _, f := range fns {
 		allCalls(f, func(ci ssa.CallInstruction) {
 			full := calleeFullName(ci)
@@ -7074,6 +7075,12 @@ func ruleIMP4(c *Ctx) []Ob {
 			}
 			call, ok := ci.(*ssa.Call)
 			if !ok || !strings.HasPrefix(full, "unicode/utf8.Valid") {
+				return
+			}
+			// the test looks at the whole input, not at one block of it: a multi-byte character cut by a
+			// block boundary is invalid in both halves
+			if sl, isSlice := call.Call.Args[0].(*ssa.Slice); isSlice && c.inLoop(call.Block()) && (sl.High != nil || sl.Low != nil) {
+				piecewise = relPath(c, call.Pos())
 				return
 			}
 			// the invalid outcome never leads to success
@@ -7114,6 +7121,8 @@ func ruleIMP4(c *Ctx) []Ob {
 	switch {
 	case !decodes:
 		o.add(INFO, key, relPath(c, imp.Pos()), "the import does not use encoding/json")
+	case piecewise != "" && checked == "":
+		o.add(VIOLATED, key, piecewise, "the UTF-8 validity test is applied, inside a loop, to one block of the input at a time: a multi-byte character that lies across a block boundary is invalid in both halves, so a valid file the export wrote (non-ASCII text at an offset that is a multiple of the block size) is refused")
 	case checked != "":
 		o.add(OK, key, checked, "the input passes a unicode/utf8 validity test whose negative outcome is an error")
 	default:
